@@ -422,6 +422,76 @@ func TestCrash(t *testing.T) {
 			}
 		}
 	}
+	if mode == "machine" {
+		directedEpochReuse(t, tw, seed, stats)
+	}
 	b, _ := json.Marshal(stats)
 	os.WriteFile(filepath.Join(out, "summary.json"), b, 0o644)
+}
+
+// directedEpochReuse replays the shortest counterexample TLC finds for the design mutant
+// "constant_seed" of CrashEpochs.tla: an upload whose epoch was never committed is forgotten by
+// a crash although its index record survives; after the restart the epoch number is used again
+// by an upload that lands at the same place.  The stale record must not validate.
+func directedEpochReuse(t *testing.T, tw *hx.Writer, seed int64, stats map[string]int) {
+	for variant, sector := range []int{1, 2} {
+		cfg := Config{Access: "flat", Alloc: "dev", Index: "dev", Policy: "immutable", Factory: "cas", Old: 0, Cur: 1, New: 1, Spare: 1,
+			Sector: sector, BlockSectors: 8 / sector, IndexSlots: 31, MaxGet: 8, MaxPut: 16}
+		keys := map[string]KeyDef{"k0": {Cid: 30, Size: 2}, "k1": {Cid: 31, Size: 2}, "k2": {Cid: 32, Size: 2}}
+		pr := pRun{Seed: seed, Cfg: cfg, Keys: keys, MinEpoch: 60 * time.Second}
+		for _, keepData := range []bool{false, true} {
+			var media *Media
+			var pre []map[string]any
+			synctest.Test(t, func(t *testing.T) {
+				log := &Log{}
+				w := newPersistentWorld(cfg, keys, nil, PersistConfig{MinEpoch: pr.MinEpoch}, log)
+				installYield(w)
+				defer installYield(nil)
+				w.st.StartSyncers()
+				w.sc.Settle()
+				put := func(k string) {
+					w.log.SetCur("c1")
+					w.start(Step{Do: "start", P: "c1", Op: "Put", K: k})
+					w.sc.Settle()
+					drain(w, false)
+				}
+				put("k0")
+				drain(w, true) // the epoch of k0 is committed
+				put("k1")      // a new epoch, never committed
+				w.st.P.Machine.CrashNow()
+				w.log.Emit(map[string]any{"ev": "CrashPoint", "n": w.st.P.Machine.Ops, "what": "directed: after an uncommitted upload"})
+				w.log.Mute()
+				media = w.st.CrashMedia(func(int) bool { return keepData }, func(int) bool { return true }, w.st.P.Dir.JournalLen(), true)
+				w.st.StopSyncers()
+				w.finish()
+				pre = log.Mem
+			})
+			var post []map[string]any
+			synctest.Test(t, func(t *testing.T) {
+				log := &Log{}
+				w := newPersistentWorld(cfg, keys, media, PersistConfig{MinEpoch: pr.MinEpoch}, log)
+				installYield(nil)
+				w.st.StartSyncers()
+				w.sc.Settle()
+				run := func(s Step) {
+					w.log.SetCur("r1")
+					w.start(s)
+					w.sc.Settle()
+					drain(w, false)
+				}
+				run(Step{Do: "start", P: "r1", Op: "Put", K: "k2"}) // reuses the forgotten epoch number and the same space
+				for _, k := range []string{"k1", "k2", "k0"} {
+					run(Step{Do: "start", P: "r1", Op: "Fm", Ks: []string{k}})
+					run(Step{Do: "start", P: "r1", Op: "Get", K: k})
+				}
+				w.st.StopSyncers()
+				w.finish()
+				post = log.Mem
+			})
+			emitTrace(tw, fmt.Sprintf("crash/%d/directed-epoch-reuse/v%d-data%v", seed, variant, keepData), pr, pre,
+				crashPlan{Kind: "machine", N: -1, FsData: true}, post)
+			stats["traces"]++
+			stats["directed"]++
+		}
+	}
 }
